@@ -13,6 +13,7 @@ KDTO = "fn('K_dto', 'obj', {0})"
 # bytes produced for a DTO by the abstract incremental serializer: a sequence of chunks
 SCHUNKS = "fn('S_chunks', 'bytesseq', {0})"
 SONE = "fn('S_one', 'bytes', {0})"
+POS0 = "fn('S_pos0', 'int', len(buffer))"  # position of the first write of a fresh buffered deserializer
 DOK = "fn('Dg_ok', 'bool', {0})"
 DVAL = "fn('Dg_val', 'obj', {0})"
 
@@ -43,9 +44,9 @@ def register(R):
     R.contract(
         "BufferedIncrementalPacketSerializer.buffered_incremental_deserialize",
         params={"buffer": "bytearray"}, gen="buf", gen_buffer="buffer", ghost={"T": "b''"}, result="tuple[obj,bytes]", trusted=True,
-        yield_inv=[f"{SK} == 0", "0 <= pos and pos < len(buffer)"],
-        ensures=[f"{SK} == 1", f"result[0] == {SP}", f"result[1] == {SR}"],
-        raises={"IncrementalDeserializeError": [f"{SK} == 2", f"exc.remaining_data == {SR}"]},
+        yield_inv=[f"{SK} == 0", "0 <= pos and pos < len(buffer)", f"implies(len(T) == 0, pos == {POS0})"],
+        ensures=[f"{SK} == 1", f"result[0] == {SP}", f"result[1] == {SR}", f"len({SR}) < len(buffer) - {POS0}"],
+        raises={"IncrementalDeserializeError": [f"{SK} == 2", f"exc.remaining_data == {SR}", f"len({SR}) < len(buffer) - {POS0}"]},
         modifies=["buffer"],
     )
     R.contract("AbstractPacketSerializer.serialize", params={"packet": "obj"}, result="bytes", trusted=True,
@@ -102,9 +103,10 @@ def register(R):
         "BufferedStreamProtocol.build_packet_from_buffer",
         params={"buffer": "bytearray"},
         gen="buf", gen_buffer="buffer", ghost={"T": "b''"}, result="tuple[obj,bytes]",
-        yield_inv=[("serializer-needs-more", f"{SK} == 0", "C01 C02"), ("position-from-serializer", "0 <= pos and pos < len(buffer)", "C01")],
-        ensures=done,
-        raises={"StreamProtocolParseError": err},
+        yield_inv=[("serializer-needs-more", f"{SK} == 0", "C01 C02"), ("position-from-serializer", "0 <= pos and pos < len(buffer)", "C01"),
+                   ("first-position", f"implies(len(T) == 0, pos == {POS0})", "C01")],
+        ensures=done + [("remainder-fits", f"len({SR}) < len(buffer) - {POS0}", "C01 C10")],
+        raises={"StreamProtocolParseError": err + [("remainder-fits", f"len({SR}) < len(buffer) - {POS0}", "C02 C10")]},
         modifies=["buffer"],
         tags="C01 C02 C06",
     )
